@@ -24,6 +24,7 @@ const SINCE_ABSOLUTE_EPOCH: u64 = 0x2000_0000_0000_0000;
 pub struct Plan {
     pub index: u64,
     pub params: ChainParams,
+    #[allow(dead_code)]
     pub genesis_len: u64,
     pub epoch_len: u64,
     pub n_blocks: usize,
@@ -118,6 +119,7 @@ pub fn plan(rng: &mut Rng, hi: u64, tier: Tier, blocks_override: Option<u64>) ->
         junk_proposals: 1,
         invalid: 0,
         ts_step_max: 12_000,
+        ..Default::default()
     };
     Plan {
         index: hi,
